@@ -592,6 +592,71 @@ def check_C18(tier, replay=None):
 CHECKS = {"C01": check_C01, "C03": check_C03, "C04": check_C04, "C05": check_C05, "C07": check_C07, "C16": check_C16, "C18": check_C18, "C19": check_C19, "C14": check_C14, "C17": check_C17, "C13": check_C13, "C12": check_C12, "C09": check_C09, "C10": check_C10, "C08": check_C08, "C11": check_C11, "C06": check_C06, "C15": check_C15, "C02": check_C02}
 
 
+# ------------------------------------------------------------------------- replay of one stored case
+
+REPLAY = {
+    "C02": ("Trace_Out", {"P": '"C02"'}, MEMBER_DEVS), "C08": ("Trace_Out", {"P": '"C08"'}, MEMBER_DEVS), "C09": ("Trace_Out", {"P": '"C09"'}, MEMBER_DEVS),
+    "C06": ("Trace_C06", {}, ("D20", "D21")), "C10": ("Trace_C10", {}, ("D06", "D06b", "D07")),
+    "C11": ("Trace_C11", None, ("D03", "D04", "D28", "D28b")), "C12": ("Trace_C12", {}, ("D05",)),
+    "C13": ("Trace_C13", {"Features": FEATURES}, ("D24a", "D24b", "D24c", "D24d", "D24e", "D03")),
+    "C14": ("Trace_C14", {}, ("D25",)), "C15": ("Trace_C15", {}, ("D26",)), "C17": ("Trace_C17", {}, ("D01", "D02")),
+    "C19": ("Trace_C19", {"NotForwarded": "{}"}, None),
+}
+CR_PROPS = ("C01", "C03", "C04", "C05", "C07", "C16", "C18")
+
+
+def replay_case(prop, path):
+    """re-run one stored case (a replay directory written by a failing check) alone"""
+    cp = os.path.join(path, "cases.ndjson")
+    if not os.path.exists(cp):
+        raise z.ToolError(f"no cases.ndjson in {path}")
+    lines = open(cp).read().splitlines()
+    vocab = json.loads(lines[0])["vocab"]
+    cases = [json.loads(l) for l in lines[1:] if l.strip()]
+    R = Result(prop, "quick")
+    R.cases, R.vocab = cases, vocab
+    z.build_harness()
+    os.environ["ZV_SCRATCH"] = os.path.join(z.BUILD, "scratch")
+    if prop in CR_PROPS:
+        import crpipe
+        os.environ["ZV_NOCACHE"] = "1"
+        mc = cr_cases("quick")
+        def only():
+            v, _, runs = mc()          # scenarios and vocabulary come from the specification, the case from the replay directory
+            return vocab or v, cases, runs
+        v2, c2, events, stats = crpipe.run_pipeline("replay", only)
+        traces = crpipe.write_traces("replay_" + prop, v2, c2, events, shards=1)
+        dev = [d for d in z.dev_set() if d in ("D27",)]
+        tcfg = cfg("TraceSpec", {"Dev": tla_set(dev), "P": '"%s"' % prop, "Tok": "<- TokOfTrace"}, post="Accepted")
+        viol, known, stale, drift = trace_run(R, "Trace_CR", tcfg, traces, "T_replay_" + prop)
+    else:
+        if prop == "C17":
+            os.environ["ZV_ZEEP_BIN"] = z.build_zeep_bin()
+        module, consts, devs = REPLAY[prop]
+        if prop == "C11":
+            files = sorted({f["name"] for c in cases for f in c.get("files", [])})
+            consts = {"File": "{" + ", ".join('"%s"' % f for f in files) + "}", "MaxCalls": str(max(c.get("ncalls", 1) for c in cases)),
+                      "RefsOn": "TRUE" if any(c.get("refs") for c in cases) else "FALSE"}
+        consts = dict(consts)
+        if devs is not None:
+            consts["Dev"] = tla_set([d for d in z.dev_set() if d in devs])
+        traces, crashed = z.run_harness(vocab, cases, "replay_" + prop, shards=1, per_case_timeout=120,
+                                        dump=os.path.join(z.BUILD, "replay_dump", prop))
+        tcfg = cfg("TraceSpec", consts, post="Accepted")
+        viol, known, stale, drift = trace_run(R, module, tcfg, traces, "T_replay_" + prop)
+    for v in viol:
+        print(f"VIOLATION property={prop} replay={path}")
+        log("violation instance:", json.dumps(v))
+        break
+    for v in viol[1:6]:
+        log("violation instance:", json.dumps(v))
+    for k in known[:3]:
+        log("known instance:", json.dumps(k))
+    if not viol:
+        log(f"replay of {path}: no violation ({len(known)} known instance(s))")
+    return 1 if viol else 0
+
+
 def main(argv):
     if not argv:
         print(__doc__)
@@ -608,6 +673,8 @@ def main(argv):
         print(f"unknown property {prop}", file=sys.stderr)
         return 2
     try:
+        if replay:
+            return replay_case(prop, replay)
         return CHECKS[prop](tier, replay)
     except z.ToolError as e:
         log("TOOL ERROR:", e)
